@@ -33,6 +33,31 @@ type Behaviour struct {
 	Steps [][]any `json:"steps"`
 }
 
+type loopJob struct {
+	req *go9p.SrvReq
+	cmd Cmd
+}
+
+// StartLoop starts the implementation's single answering goroutine (event-loop mode).
+func (k *Case) StartLoop() {
+	k.loop = make(chan loopJob)
+	k.loopCmd = map[int]Cmd{}
+	go func() {
+		for j := range k.loop {
+			k.C.Answer(j.req, j.cmd)
+			k.C.mu.Lock()
+			k.loopBusy = false
+			k.C.mu.Unlock()
+		}
+	}()
+}
+
+func (k *Case) loopIdle() bool {
+	k.C.mu.Lock()
+	defer k.C.mu.Unlock()
+	return !k.loopBusy
+}
+
 // Case is one controlled execution.
 type Case struct {
 	C            *Ctl
@@ -42,7 +67,11 @@ type Case struct {
 	Steps        [][]any // steps performed (for the replay file)
 	byTag        int
 	closeEntered bool
-	CloseBy      string // how the connection ends: "" (client closes), "oversize", "badframe"
+	CloseBy      string       // how the connection ends: "" (client closes), "oversize", "badframe"
+	loop         chan loopJob // event-loop mode: one goroutine of the implementation delivers every late answer
+	loopBusy     bool
+	loopQ        []int // requests whose answer is decided and waits for the event loop, in order
+	loopCmd      map[int]Cmd
 	nwire        int
 	Trace        []Event // internal trace lines (act, args, post)
 	rng          *rand.Rand
@@ -180,6 +209,13 @@ func (k *Case) Do(step []any) error {
 		err = c.GrantCmd("impl", a(1), 0, Cmd{Out: "return"})
 		if err == nil {
 			k.late[a(1)] = true
+			if k.loop != nil {
+				cmd := k.implCmd("ok")
+				k.loopCmd[a(1)] = cmd
+				k.loopQ = append(k.loopQ, a(1))
+				// the implementation has its answer; only its event loop has to deliver it
+				c.Emit(Event{"ev": "answer", "n": a(1), "out": "ok", "payload": cmd.Payload})
+			}
 		}
 	case "ImplAbort":
 		err = c.GrantCmd("impl", a(1), 0, Cmd{Out: "return"})
@@ -191,7 +227,19 @@ func (k *Case) Do(step []any) error {
 		}
 		req := k.ch.Reqs[r-1]
 		cmd := k.implCmd(out)
-		go c.Answer(req, cmd)
+		if k.loop != nil {
+			if !k.loopIdle() || len(k.loopQ) == 0 || k.loopQ[0] != r {
+				return fmt.Errorf("ImplLate(%d): the implementation's event loop is busy or has another answer first", r)
+			}
+			cmd = k.loopCmd[r]
+			k.loopQ = k.loopQ[1:]
+			c.mu.Lock()
+			k.loopBusy = true
+			c.mu.Unlock()
+			k.loop <- loopJob{req, cmd}
+		} else {
+			go c.Answer(req, cmd)
+		}
 		c.Wait()
 		k.answered[r] = true
 		delete(k.late, r)
@@ -400,9 +448,15 @@ func (k *Case) enabledSteps() [][]any {
 	if k.ch.Writing && !k.Closed {
 		out = append(out, []any{"CRecv"})
 	}
-	for r := range k.late {
-		if !k.answered[r] {
-			out = append(out, []any{"ImplLate", r, "ok"})
+	if k.loop != nil {
+		if k.loopIdle() && len(k.loopQ) > 0 {
+			out = append(out, []any{"ImplLate", k.loopQ[0], "ok"})
+		}
+	} else {
+		for r := range k.late {
+			if !k.answered[r] {
+				out = append(out, []any{"ImplLate", r, "ok"})
+			}
 		}
 	}
 	return out
